@@ -35,6 +35,7 @@ func languageSweep(r *ev.Run, G *gprops, gs *gstats, vers []int, thorough bool) 
 	r.Phase("pumping", func() { pumping(r, G, gs, vers, thorough) })
 	r.Phase("length boundaries", func() { lengthBoundaries(r, G, gs, vers, thorough) })
 	r.Phase("case variants", func() { caseVariants(r, G, gs, vers) })
+	r.Phase("decorations", func() { decorations(r, G, gs, vers) })
 	if G.accept || G.decOn {
 		r.Phase("decoder re-use", func() { reusePhase(r, vers) })
 	}
